@@ -91,10 +91,34 @@ def judge_state(ctx, sc, crash, lab, base_exits, final, case):
     return v
 
 
+def first_level(ctx, sc):
+    """[(k, tear, lose)] - one representative crash point per distinct crash state of the scenario's run"""
+    res, log, final = faults.record(ctx, sc["pre"], sc["op"], sub.NOW0 + 1000)
+    out, seen = [], {engine.canon(sc["pre"]), engine.canon(final)}
+    for k, tear in faults.crash_points(log):
+        for lose in ((False, True) if faults.has_open_files(log[:k]) else (False,)):
+            key = engine.canon(faults.apply_log(sc["pre"], log[:k], tear, lose_buffers=lose))
+            if key not in seen:
+                seen.add(key)
+                out.append([k, tear, lose])
+    return out
+
+
 def eval_case(ctx, case):
     sc = case["sc"]
-    res, log, final = faults.record(ctx, sc["pre"], sc["op"], sub.NOW0 + 1000)
+    now = sub.NOW0 + 1000
+    if "second" in case:
+        # the run is repeated on what a first kill left behind, and killed again (two faults in a row)
+        k1, tear1, lose1 = case["second"]
+        res1, log1, final1 = faults.record(ctx, sc["pre"], sc["op"], now)
+        s1 = faults.apply_log(sc["pre"], log1[:k1], tear1, lose_buffers=lose1)
+        sc = {"name": sc["name"] + " [run again after a first kill " + faults.label(log1, k1, tear1) +
+              (", unflushed data lost" if lose1 else "") + "]", "pre": s1, "op": sc["op"]}
+        now = sub.NOW0 + 2000
+    res, log, final = faults.record(ctx, sc["pre"], sc["op"], now)
     if res.exit != 0:
+        if "second" in case:   # how the repeated run answers is judged by the first level (recovery commands)
+            return [], 0, len(log), 0
         return [Viol(PROP, "uninterrupted-run-fails", {}, f"{sc['name']}: exit {res.exit} {res.exc}", case)], 0, len(log), 0
     base = []
     for rop in recover_ops():
@@ -140,22 +164,37 @@ def main(tier, seed):
     if not S:
         raise engine.HarnessError("no scenario could be prepared: " + str(eng.notes.get("skipped_scenarios")))
     cases = [{"sc": sc, "dense": tier == "thorough" and sc["name"] in ("flat-1-prior", "nested-both-exist", "no-history")} for sc in S]
+    # two kills in a row: every distinct state a first kill leaves behind is the starting point of a second, interrupted run
+    two = ("no-history", "flat-1-prior", "nested-parent-first-generation", "sf-no-history", "child-only-first-generation")
+    n_first = len(cases)
+    for sc in S:
+        if tier == "thorough" and not sc["name"].startswith("larger") or sc["name"] in two:
+            for pt in first_level(eng.local_ctx(), sc):
+                cases.append({"sc": sc, "second": pt})
     res = eng.pmap(work, cases, chunksize=1)
-    states = evals = 0
+    states = evals = states2 = 0
     for case, (vs, n, nlog, npts) in zip(cases, res):
         eng.add_viols(vs)
         states += n
         evals += n * 3
+        if "second" in case:
+            states2 += n
+            eng.outcome((case["sc"]["name"], "second kill", "viol" if vs else "ok"))
+            continue
         eng.outcome((case["sc"]["name"], nlog, "viol" if vs else "ok"))
         eng.sample({"scenario": case["sc"]["name"], "op": ops.label(case["sc"]["op"]), "logged_operations": nlog,
                     "crash_points": npts, "distinct_crash_states": n}, limit=20)
     cov = {"evaluations": evals, "distinct_nontrivial": states, "exhaustive": True, "scenarios": [sc["name"] for sc in S],
+           "second_kill_start_states": len(cases) - n_first, "second_kill_crash_states": states2,
            "rule": "for each scenario (no history, 1 and 2 prior generations, nested with both / only the child history existing, "
                    "-sf with prior generation / into a child / without history, first generation of a child; thorough: three levels, "
                    "larger trees) one uninterrupted create is logged (mkdir, open, write, flush, close, replace, remove; cross-checked "
                    "against audit events and by replaying the log); EVERY prefix of the log is a crash point, a write in flight is "
                    "torn at 1 byte / half / all-but-one / every 4 KiB (thorough: every byte of the chain rewrite); each distinct crash "
-                   "state is materialised and recovered with info, verify and create; distinct = distinct crash states"}
+                   "state is materialised and recovered with info, verify and create; distinct = distinct crash states; two kills in a "
+                   "row: from every distinct state a first kill leaves behind (quick: 5 scenarios, thorough: all but the larger trees) "
+                   "the same run is repeated 1000 s later, logged and killed at every point again, same oracle with the first crash state "
+                   "as 'what was already recorded'"}
     eng.assumptions += ["crash model: process kill - completed operations persist in program order, the write in flight may be cut at "
                         "any stream prefix, and the unflushed data of every file that is still open may be lost entirely (also after a "
                         "rename of that file); power-loss reordering of unsynced blocks is not modelled (the tool never syncs)",
